@@ -62,7 +62,7 @@ static unsigned long rnd(unsigned long m) { return m ? (unsigned long)(seam::nex
 static json vec_j(const std::vector<mpz_ptr> &v) { json a = json::array(); for (size_t k = 0; k < v.size(); k++) a.push_back(mpz2l(v[k])); return a; }
 static json qual_j(const std::vector<size_t> &q) { json a = json::array(); for (size_t k = 0; k < q.size(); k++) a.push_back(q[k]); return a; }
 
-struct Cfg { std::string proto; size_t n, t, trbc; std::vector<int> role; /* 0 honest, 1 lib-faulty, 2 silent, 3 tampered dealer, 4 crashes after some sends, 5 honest key generation but a damaged share when signing */ long tamper_from, tamper_to; unsigned long seed; bool rndorder; std::vector<long> cut_after; };
+struct Cfg { std::string proto; size_t n, t, trbc; std::vector<int> role; /* 0 honest, 1 lib-faulty, 2 silent, 3 tampered dealer, 4 crashes after some sends, 5 honest key generation but a damaged share when signing, 6 honest until the refresh, where its zero sharing has a non-zero constant term */ long tamper_from, tamper_to; unsigned long seed; bool rndorder; std::vector<long> cut_after; };
 
 static const long GROUPS[][3] = { {2063, 1031, 2}, {46199, 23099, 2}, {46327, 1103, 42}, {23, 11, 2}, {47, 23, 2} };
 
@@ -83,6 +83,17 @@ static void run_exec(std::ofstream &out, const Cfg &c, long gi) {
 	std::vector<long> sent_total(n, 0), cut_after = c.cut_after; cut_after.resize(n, -1);
 	netu.sent_total = netb.sent_total = &sent_total; netu.cut_after = netb.cut_after = &cut_after;
 	for (size_t i = 0; i < n; i++) if (c.role[i] == 2) { netu.cut[i] = true; netb.cut[i] = true; }
+	// role 6 (refresh): a dealer whose "zero" sharing has the constant term delta: its first broadcast of the sharing (C_i0 = 1)
+	// becomes g^delta, every share it deals grows by delta - consistent with its commitments, not a sharing of zero
+	std::vector<int> zv_active(n, 0); std::vector<std::vector<int> > zv_sent(n, std::vector<int>(n, 0));
+	const unsigned long zv_delta = 1 + (unsigned long)(c.seed % 5);
+	netb.rewrite = [&](size_t from, size_t to, std::vector<std::string> &v) {
+		(void)to;
+		if (zv_active[from] && v.size() == 5 && v[3] == "1" && v[2] == "1" && v[4] == "1") { Mpz gd; mpz_powm_ui(gd, GG, zv_delta, GP); char *x = mpz_get_str(NULL, 10, gd); v[4] = x; free(x); }
+	};
+	netu.rewrite = [&](size_t from, size_t to, std::vector<std::string> &v) {
+		if (zv_active[from] && v.size() == 1 && zv_sent[from][to]++ == 0) { Mpz x(v[0], 10); mpz_add_ui(x, x, zv_delta); mpz_mod(x, x, GQ); char *y = mpz_get_str(NULL, 10, x); v[0] = y; free(y); }
+	};
 	if (c.tamper_from >= 0) { sim::Net::Tamper tp; tp.from = (size_t)c.tamper_from; tp.to = (size_t)c.tamper_to; tp.index = (long)(c.seed % 2); tp.add = "1"; tp.drop = false; netu.tampers.push_back(tp); }
 	std::vector<bool> active(n, true);
 	for (size_t i = 0; i < n; i++) if (c.role[i] == 2) active[i] = false;
@@ -152,7 +163,9 @@ static void run_exec(std::ofstream &out, const Cfg &c, long gi) {
 					o["m"] = msgval; o["sret"] = sret; o["r"] = num(rr); o["s"] = num(ss);
 					o["ver"] = sret ? dss.Verify(m, rr, ss) : false;
 					sc.barrier(i, [&]() { Mpz tmp; size_t l = 0; rbc->Deliver(tmp, l, aiounicast::aio_scheduler_roundrobin, 0); });
+					if (c.role[i] == 6) zv_active[i] = 1;
 					bool fret = dss.Refresh(n, i, aiou, rbc, err, faulty);
+					zv_active[i] = 0;
 					o["fret"] = fret; o["x2"] = mpz2l(dss.x_i); o["xp2"] = mpz2l(dss.xprime_i); o["y2"] = mpz2l(dss.y); o["qual2"] = qual_j(dss.QUAL);
 					if (fret) {
 						sc.barrier(i, [&]() { Mpz tmp; size_t l = 0; rbc->Deliver(tmp, l, aiounicast::aio_scheduler_roundrobin, 0); });
